@@ -94,8 +94,18 @@ def build(seed, tier):
         if ro.random() < 0.2:
             op['inputs'] = [ro.choice(['in1', '7'])]
         ops.append(op)
+        if ro.random() < 0.12:
+            # the instructor passes the result of one call on to another call
+            consumer, producer = ro.choice(histories.RESULT_CHAINS)
+            ops.append({'op': 'call', 'fn': producer,
+                        'args_src': [histories.gen_arg(ro, k) for k in histories.LIB_FUNCS.get(producer, [])]})
+            ops.append({'op': 'call', 'fn': consumer, 'args_src': ['@ret:%d' % (len(ops) - 1)]})
     if mirrored:
         target = rf.randrange(len(ops))
+        if ops[target].get('fn') in ('make_grumpy', 'use_grumpy'):
+            # pedal itself calls the student's __repr__ there (student LINE events the direct call does not have):
+            # a fault defined by an event count would land on different lines in the two executions
+            target = 0
         ops[target]['fault'] = {'kind': 'sync_student', 'k': rf.randint(1, 30 if target == 0 else 8), 'exc': rf.choice(MIRROR_CLASSES)}
     tracer = rc.choice(['none', 'none', 'none', 'native', 'calls'])
     cfg = {'tracer': tracer, 'ref': True, 'data': True}
@@ -148,7 +158,14 @@ def judge(spec, res):
                 continue
             return vs
         if o.get('escaped') is not None:
-            return vs      # C04/C05 territory
+            if not op.get('fault') and ref.get('outcome') is None and kind in ('call', 'evaluate'):
+                # nothing was injected and the direct call returns normally, yet the sandboxed call raised into the
+                # instructor script (e.g. while marshalling the arguments)
+                e = o['escaped']
+                vs.append({'sig': 'C06/outcome-differs/%s/sandbox-call-raised-%s' % (kind, e['cls']),
+                           'detail': 'op %d (%s %s): the direct call returns normally; the sandboxed call raised %s(%s) at %s' % (
+                               o['index'], kind, op.get('fn') or op.get('expr'), e['cls'], e['str'][:60], e['where'][-2:])})
+            return vs      # (otherwise C04/C05 territory)
         ro = ref['outcome']
         if ro is not None and 'Exception' not in ro['mro'] and 'SystemExit' not in ro['mro']:
             return vs
